@@ -13,6 +13,7 @@ divergence, curl, lie_bracket, jacobian_dict / jacobian_matrix, flow_derivatives
 * spatial_derivatives(mode='gaussian') with the Gaussian kernels replaced by symbolic 3-tap kernels: every axis is
   correlated (derivative kernel on the differentiated axis, replicate padding) and the result is divided by the spacing
   of the differentiated axis -- in every mode the divisor of d/dx_a is spacing[a]
+* data/flow.py FlowFields.curl / FlowField.curl executed on recording stand-ins: default spacing per axes of the vectors
 * flow_derivatives: shorthand expansion, grouping per component, de-duplication of mixed keys: on symbolic fields the
   value returned for a key must not depend on which other keys were requested (subset = all restricted), and the
   returned keys are exactly the requested ones in order
@@ -547,6 +548,123 @@ def check_integer_data(img):
                 raise TraceError("finite_differences on integer data differs from the result on the same data as float")
 
 
+def check_flowfields_curl(loader):
+    """data/flow.py FlowFields.curl / FlowField.curl (function bodies taken from the source text, run on recording stand-ins):
+    the spacing handed to core.flow.curl defaults to the distance of neighbouring grid points in the axes of the flow vectors
+    (GRID: 1, WORLD: grid spacing, CUBE: 2 / n, CUBE_CORNERS: 2 / (n - 1)); an explicit spacing and mode / sigma / stride are
+    passed through; only 2-D and 3-D fields are accepted; FlowField.curl is the first item of the batch method"""
+    import ast
+    import os
+    path = os.path.join(loader.root, "deepali", "data", "flow.py")
+    tree = ast.parse(open(path).read())
+    grid_mod = loader.load("deepali.core.grid")
+    Axes = grid_mod.Axes
+    calls = []
+
+    class UStub:
+        @staticmethod
+        def curl(tensor, **kw):
+            calls.append((tensor, kw))
+            return "ROT"
+
+    def extract(cls_name, fn_name, ns):
+        cls = [n for n in tree.body if isinstance(n, ast.ClassDef) and n.name == cls_name]
+        fns = [n for n in (cls[0].body if cls else []) if isinstance(n, ast.FunctionDef) and n.name == fn_name]
+        if len(fns) != 1:
+            raise TraceError(f"{cls_name}.{fn_name} not found in data/flow.py")
+        node = fns[0]
+        node.decorator_list = []
+        node.returns = None
+        for a_ in node.args.args:
+            a_.annotation = None
+        mod = ast.Module(body=[node], type_ignores=[])
+        ast.fix_missing_locations(mod)
+        exec(compile(mod, path, "exec"), ns)
+        return ns[fn_name]
+
+    made = []
+
+    def image_batch(data, grid):
+        made.append((data, grid))
+        return ("BATCH", data, grid)
+
+    ns = {"U": UStub, "Axes": Axes, "ImageBatch": image_batch}
+    batch_curl = extract("FlowFields", "curl", dict(ns))
+    single_curl = extract("FlowField", "curl", dict(ns))
+
+    class GridStub:
+        def __init__(self, size):
+            self._size = size
+
+        def size(self):
+            return self._size
+
+    class FF:
+        curl = batch_curl
+
+        def __init__(self, sdim, axes, size):
+            self.sdim, self._axes, self._grid = sdim, axes, ("GRIDS", size)
+            self._g = GridStub(size)
+
+        def axes(self):
+            return self._axes
+
+        def grid(self):
+            return self._g
+
+        def spacing(self):
+            return "SPACING"
+
+        def tensor(self):
+            return "TENSOR"
+
+    for size in ((7, 5), (6, 4, 9)):
+        D = len(size)
+        for ax in Axes:
+            want = {Axes.GRID: 1, Axes.WORLD: "SPACING", Axes.CUBE: tuple(Fraction(2, n) for n in size),
+                    Axes.CUBE_CORNERS: tuple(Fraction(2, n - 1) for n in size)}[ax]
+            calls.clear()
+            made.clear()
+            r = FF(D, ax, size).curl()
+            if len(calls) != 1 or calls[0][0] != "TENSOR":
+                raise TraceError("FlowFields.curl does not call core.flow.curl once on the flow tensor")
+            sp = calls[0][1].get("spacing")
+            if isinstance(want, tuple):
+                ok = isinstance(sp, (tuple, list)) and len(sp) == D and all(abs(Fraction(a_).limit_denominator(10 ** 6) - b_) < Fraction(1, 10 ** 9) for a_, b_ in zip(sp, want))
+            else:
+                ok = sp == want
+            if not ok:
+                raise TraceError(f"FlowFields.curl with {ax} vectors on a grid of size {size} uses spacing {sp}, expected {want}")
+            if calls[0][1].get("mode") is not None or calls[0][1].get("sigma") is not None or calls[0][1].get("stride") is not None:
+                raise TraceError("FlowFields.curl does not pass mode / sigma / stride through unchanged")
+            if r != ("BATCH", "ROT", ("GRIDS", size)):
+                raise TraceError("FlowFields.curl does not return the rotation field on the grids of the flow fields")
+            calls.clear()
+            FF(D, ax, size).curl(mode="sobel", sigma=0.5, spacing=(3, 4, 5)[:D], stride=2)
+            if calls[0][1] != {"mode": "sobel", "sigma": 0.5, "spacing": (3, 4, 5)[:D], "stride": 2}:
+                raise TraceError(f"FlowFields.curl passes {calls[0][1]} for explicit arguments")
+    for bad in (1, 4):
+        try:
+            FF(bad, Axes.GRID, (5,) * bad).curl()
+        except RuntimeError:
+            continue
+        raise TraceError(f"FlowFields.curl accepts a {bad}-dimensional flow field")
+
+    class One:
+        curl = single_curl
+
+        def batch(self):
+            class B_:
+                def curl(self, **kw):
+                    calls.append(("batch", kw))
+                    return ["ITEM0", "ITEM1"]
+            return B_()
+
+    calls.clear()
+    if One().curl(mode="central", spacing=2) != "ITEM0" or calls != [("batch", {"mode": "central", "sigma": None, "spacing": 2, "stride": None})]:
+        raise TraceError("FlowField.curl is not item 0 of FlowFields.curl with the same arguments")
+
+
 def generate(loader):
     img = loader.load("deepali.core.image")
     flow_mod = loader.load("deepali.core.flow")
@@ -556,6 +674,7 @@ def generate(loader):
         s, _ = stencil_section(img)
         check_conv1d_padding(img, loader.load("deepali.core.enum"))
         check_integer_data(img)
+        check_flowfields_curl(loader)
         kernels = avg_kernels(img)
         check_spatial_derivatives(img, kernels)
         check_gaussian_mode(img)
